@@ -339,6 +339,9 @@ func (g *G) settleOp() {
 // inject stores a record directly, as a genesis import does: this is how records with several weighted recipients arise.
 func (g *G) inject(t *tenant) {
 	r := g.r
+	if t.denom != "uusdc" && t.denom != "uerc" {
+		return // a direct store write bypasses validation; histories of transactions never hold an invalid coin
+	}
 	req := fmt.Sprintf("j%d", t.nreq)
 	t.nreq++
 	amt := rng.Pick(r, []int{1, 2, 3, 7, 10, 11, 50, 99, 100, 401, 3001})
